@@ -18,7 +18,7 @@ THEOREMS = ['Pfst.C09.pr_derives', 'Pfst.C09.pr_minimal_derives', 'Pfst.C09.repl
             'Pfst.C09.not_derives_sub_right']
 THEOREMS += ['Pfst.C09c.parse_derives', 'Pfst.C09c.parse_iff', 'Pfst.C09c.derives_unique', 'Pfst.C09c.parse_pr',
              'Pfst.C09c.parse_pr_minimal', 'Pfst.C09c.parse_pr_whole', 'Pfst.C09c.pr_derives_only',
-             'Pfst.C09c.replace_groups_unique']
+             'Pfst.C09c.replace_groups_unique', 'Pfst.C09c.derives_unique_false_outside_fragment']
 RULE = ('(i) spec grammar vs CPython: abstract syntax trees over every construct kind (every parent kind x child slot x child '
         'kind at depth 2, random to depth 4) printed by the Lean printer with the minimal policy, parsed by CPython, compared '
         'with the intended tree; (ii) every cell of the regenerated pfst table vs the spec need (Lean, kernel-checked) and '
